@@ -16,11 +16,13 @@ ANCHORS = SC.ANCHORS
 def run(ctx: Ctx):
     ctx.rule = ("same generators as C01 (random k-CNF near the phase transition, injected units/binaries/repeats, gaps, assumptions, "
                 "all option values, tiny budgets) plus structured UNSAT families (pigeonhole 3-5, contradictory parity chains, the "
-                "18-variable cumulative encoding); non-trivial = conflict analysis produced >=1 learned clause (each one RUP-checked in "
+                "18-variable cumulative encoding) and a budget sweep (pigeonhole 6..10 pigeons, random 3-SAT with 30-60 variables, parity chains, each under "
+                "~25 small max_conflicts / max_restarts values: every call must return in time); non-trivial = conflict analysis produced >=1 learned clause (each one RUP-checked in "
                 "coqc); distinct = canonical JSON of (clauses, assumptions, options)")
     ctx.proof_step(["C01"], props_file="Props/C02.v")
     ctx.notes += SC.NOTES + SC.NOTES_C02
     SC.run_engine(ctx, "C02")
+    SC.run_sweep(ctx)  # budget sweep: hard instances x several small max_conflicts / max_restarts values, every call must return
 
 
 def replay(obj):
